@@ -4,6 +4,7 @@
   semantics (`Spec.sIndexGet/sIndexSet`) and of the machine model (`indexGet/indexSet`).
 -/
 import Nlmodel.Model.Pipeline
+import Nlmodel.Proofs.Lemmas.SimHOps
 namespace Nl
 namespace C13
 open Spec
@@ -112,6 +113,33 @@ theorem C13_string_replace (s r : Text) (j : Nat) (hj : j < s.length) :
 theorem C13_length_chars (s : Text) : builtinCore .length (.str s) = .ok (.int s.length) := rfl
 
 example : normIndex 3 (-1) = some 2 ∧ normIndex 3 3 = none ∧ normIndex 0 (-1) = none := by decide
+
+/-! ### the machine and the semantics agree on every read and write (stage 5 of the simulation) -/
+
+/-- READING AN ELEMENT: whenever the store of the semantics and the machine heap are related (`SimH.Inv5`:
+    an injective address map, cell-wise equal contents) and the operands are related, `a[i]` has the
+    same outcome on both sides — the related element of an array (negative indices from the end), a
+    fresh one-character string, or the same error kind -/
+theorem C13_index_read_agrees {s0 : VM} {CS : List Const} {Γ : Sim.Gam} {μ : SimH.AMap} {st : SState} {g : Array Value} {l : Value} {m : Mem} {out : List Text}
+    (hinv : SimH.Inv5 s0 CS Γ μ st g l m out) (a b : SVal) (ma mb : Value)
+    (ha : SimH.VRh μ st m.heap a ma) (hb : SimH.VRh μ st m.heap b mb) :
+    match sIndexGet a b st with
+    | .ok (r, st') => ∃ μ' mr m', indexGet ma mb m = .ok (mr, m') ∧ SimH.Inv5 s0 CS Γ μ' st' g l m' out ∧
+        SimH.Grow μ st m.heap μ' st' m'.heap ∧ SimH.VRh μ' st' m'.heap r mr
+    | .error e => indexGet ma mb m = .error e :=
+  SimH.indexGet_rel hinv a b ma mb ha hb
+
+/-- WRITING AN ELEMENT: `a[i] = v` changes exactly one cell on each side — the cell both names of an
+    aliased array denote (the address map is injective) — and the relation between the two heaps
+    holds again afterwards, for every other array, string and variable as before; errors agree -/
+theorem C13_index_write_agrees {s0 : VM} {CS : List Const} {Γ : Sim.Gam} {μ : SimH.AMap} {st : SState} {g : Array Value} {l : Value} {m : Mem} {out : List Text}
+    (hinv : SimH.Inv5 s0 CS Γ μ st g l m out) (a b c : SVal) (ma mb mc : Value)
+    (ha : SimH.VRh μ st m.heap a ma) (hb : SimH.VRh μ st m.heap b mb) (hc : SimH.VRh μ st m.heap c mc) :
+    match sIndexSet a b c st with
+    | .ok (r, st') => ∃ mr m', indexSet ma mb mc m = .ok (mr, m') ∧ SimH.Inv5 s0 CS Γ μ st' g l m' out ∧
+        SimH.Grow μ st m.heap μ st' m'.heap ∧ SimH.VRh μ st' m'.heap r mr
+    | .error e => indexSet ma mb mc m = .error e :=
+  SimH.indexSet_rel hinv a b c ma mb mc ha hb hc
 
 end C13
 end Nl
